@@ -16,6 +16,10 @@
 
   There is no receive queue: nothing but `next_sequence_number` survives a request.
 
+  `Shape.*` at the end of this file are the four Python functions, statement by statement, each
+  annotated with the definition here that mirrors it; the translator regenerates the same values
+  from the working tree and `Props.C04.source_shape_ipmbdev` / `source_shape_aardvark` demand equality.
+
   Time is a virtual clock carried by the events (`dt` ticks pass before the frame is
   readable); the model needs only the time elapsed since `start`.  Adversarial on purpose:
   a frame event may claim more ticks than the timeout that was asked for (a late wake-up);
